@@ -436,7 +436,7 @@ def r8_6(ctx, rc):
     def own_path(sn):
         if sn.call is None or not sn.call.args:
             return False
-        a = ctx.H.subst(sn.call.args[0], sn.func, sn.cn)
+        a = ctx.H.subst_frames(sn.call.args[0], sn)
         return isinstance(a, ast.Attribute) and a.attr == 'filename' and \
             isinstance(a.value, ast.Attribute) and \
             a.value.attr == '_operation'
